@@ -401,6 +401,7 @@ class Unit:
         return t
 
 
+DEFAULT_UNWIND = 100
 DEFAULT_CHECKS = ['--bounds-check', '--pointer-check', '--pointer-overflow-check', '--div-by-zero-check',
                   '--signed-overflow-check', '--undefined-shift-check', '--pointer-primitive-check']
 
@@ -521,6 +522,10 @@ def run_unit(unit, variant, workdir, edit=None, trace_prop=None, extra_defs=()):
         cmd = ['cbmc', b] + checks + list(unit.flags) + list(unit.variant_flags.get(variant, []))
         if unit.unwind:
             cmd += ['--unwind', str(unit.unwind), '--unwinding-assertions']
+        elif '--unwind' not in cmd:
+            # no unit leaves loops unbounded: a loop that appears in a function which had none (or beside the ones under loop contracts) is unwound up to
+            # DEFAULT_UNWIND with unwinding assertions instead of exhausting memory; constant-bound loops shorter than that are unaffected
+            cmd += ['--unwind', str(DEFAULT_UNWIND), '--unwinding-assertions']
         if unit.objbits:
             cmd += ['--object-bits', str(unit.objbits)]
         if unit.solver and unit.solver not in ('minisat',):
@@ -592,10 +597,9 @@ def parse_cbmc(out, r, rc):
     if bad:
         raise Undecided('obligation %s has status %s' % (bad[0]['id'], bad[0]['status']))
     u = r.unit
-    if u.unwind or '--unwind' in u.variant_flags.get(r.variant, []):
-        uw = [o for o in r.obligations if o['cls'] == 'unwind' and o['status'] == 'FAILURE']
-        if uw:
-            raise Undecided('unwinding assertion %s failed (bound %s too small)' % (uw[0]['id'], u.unwind))
+    uw = [o for o in r.obligations if o['cls'] == 'unwind' and o['status'] == 'FAILURE']
+    if uw:
+        raise Undecided('unwinding assertion %s failed (bound %s too small)' % (uw[0]['id'], u.unwind or DEFAULT_UNWIND))
     r.status = 'fail' if any(o['status'] == 'FAILURE' for o in r.obligations) else 'pass'
     if r.status == 'pass':
         if r.canary != 'FAILURE':
@@ -659,3 +663,27 @@ def do_while_rule(text):
         text = text[:s] + '{ int vf_first = 1; while (vf_first || (' + cond + ')) { vf_first = 0; ' + body + ' } }' + text[semi + 1:]
         n += 1
         pos = s + 10
+
+
+def bounded_twin(unit, name, flags, unwind, bound, drop_rules=()):
+    """A second unit over the same cuts, contract and stubs WITHOUT the loop contracts: every loop is unwound completely for inputs small enough (`flags`, e.g. -DNMAX=6).
+    It does not depend on the names or the shape of the loop's locals, so it still decides (bounded) when a loop is restructured, gains an inner loop, or loses
+    the variables a loop invariant talks about - cases in which the loop-contract unit can only say 'undecided'."""
+    import copy
+    v = copy.copy(unit)
+    v.name = name
+    v.cuts = []
+    for c in unit.cuts:
+        d = copy.copy(c)
+        d.loops = []
+        d.rules = [r for r in c.rules if r not in drop_rules]
+        d.fired = []
+        v.cuts.append(d)
+    v.variants = {'': list(flags)}
+    v.variant_flags, v.variant_kind = {}, {}
+    v.unwind = unwind
+    v.kind, v.bound = 'bounded', bound
+    v.loop_contracts = False
+    v.planted = []
+    v.desc = unit.desc + ' [bounded twin without loop contracts: ' + bound + ']'
+    return v
